@@ -242,7 +242,9 @@ fn exercise(img: &[u8], name: &Value) -> Value {
                 let mut m = Meter { dev: dev.clone(), max_read: 0, max_alloc: 0, calls: 0 };
                 let mut sink = std::io::sink();
                 let r = m.call(|| rd.blob(&b, &mut sink));
-                note("blob", outcome(&r), &m, json!({"len": limbs_u64(b.length)}));
+                // bytes delivered with an Ok result (C06: never silently fewer or more than the descriptor says)
+                let got = match &r { Ok(Ok(n)) => json!({"some": limbs_u64(*n)}), _ => json!({"none": 1}) };
+                note("blob", outcome(&r), &m, json!({"len": limbs_u64(b.length), "got": got}));
             }
         }
     }
